@@ -25,6 +25,7 @@ struct op {
     int len;   /* send: message length; recv: capacity */
     int m;     /* send: message number in this direction */
     int hi;    /* send: the length offered is hi * 2^32 + len (C03: "far larger" sizes that wrap a 32-bit length) */
+    int try_only;  /* send: a failure of this send does not end the script (the application goes on to receive) */
 };
 
 struct side {
@@ -669,6 +670,10 @@ static void run_script(struct side *x)
         switch (o->k) {
         case OP_SEND:
             rc = do_send(x, o);
+            if (rc < 0 && o->try_only) {
+                mc_observe("%s goes on after the failed send (errno=%s)", x->name, errname(x->term_errno));
+                rc = 0;
+            }
             if (rc == 0 && g_fin_each)
                 rc = do_finish(x);
             break;
@@ -815,6 +820,16 @@ static void build_script(const char *name)
     } else if (strcmp(name, "S2") == 0) {     /* bytestream: a large write crossing a TLS record, then 3 bytes */
         add(&A, OP_SEND, 40000); add(&A, OP_SEND, 3); add(&A, OP_FINISH, 0); add(&A, OP_CLOSE, 0);
         add(&B, OP_RECV_EOF, 65536);
+    } else if (strcmp(name, "T7") == 0 || strcmp(name, "S5") == 0) {
+        /* the peer sends, flushes and closes; this end first WRITES (twice: the second write meets the broken pipe) and
+           only then reads what the peer had sent: delivered data must be delivered whole and counted (C06 drain, C17) */
+        int bs = name[0] == 'S';
+        add(&A, OP_SEND, bs ? 5 : 3); add(&A, OP_SEND, bs ? 2 : 300); add(&A, OP_FINISH, 0); add(&A, OP_CLOSE, 0);
+        add(&B, OP_RECV, bs ? 2 : MAXMSG); if (bs) B.ops[B.nops - 1].m = 2;
+        add(&B, OP_SEND, 1); B.ops[B.nops - 1].try_only = 1;
+        add(&B, OP_SEND, 2); B.ops[B.nops - 1].try_only = 1;
+        add(&B, OP_SEND, 1); B.ops[B.nops - 1].try_only = 1;
+        add(&B, OP_RECV_EOF, bs ? 65536 : MAXMSG);
     } else if (strcmp(name, "S4") == 0) {     /* bytestream: the accepted side writes across TLS records, then 3 bytes */
         add(&B, OP_SEND, 40000); add(&B, OP_SEND, 3); add(&B, OP_FINISH, 0); add(&B, OP_CLOSE, 0);
         add(&A, OP_RECV_EOF, 65536);
